@@ -1100,6 +1100,7 @@ class Machine:
         if fn is not None:
             r = fn(self, st, fr, t, args, site)
             if r is not NotImplemented:
+                st.events.append(('modelled', site))
                 return self.finish_call(st, fr, t, r, site)
         # 2. local bodies: inline
         targets = []
